@@ -16,7 +16,7 @@ ID = 'C05'
 RULE = ('Hypothesis pretest pairs (x, y), n in 3..60, y and x = loadings on a common random-walk factor + dyadic noise '
         '(|r| from ~0 to ~0.9999), n_test 1..30, sig/power in (0.02,0.98), flevel in [0.9,0.999]; for each: closed form R4, '
         'the constructed-experiment differential against tbr.TBR.summary(level=sig, tails=1), 2^k scaling, level shifts, '
-        'monotonicity/evenness in rho on a grid. Non-trivial = residual sd > 1e-6 sd(y) and n >= 4; distinct by spec hash.')
+        'monotonicity/evenness in rho on a grid; in half of the cases the metamorphic variants are fed to the same object through its setters. Non-trivial = residual sd > 1e-6 sd(y) and n >= 4; distinct by spec hash.')
 BUDGET = {'quick': 1600, 'thorough': 100000}
 FLOOR = {'quick': 600, 'thorough': 30000}
 ASSUMPTIONS = ['scipy.stats t/F quantile functions are trusted', 'differential tolerance 1e-7 relative, closed form 1e-9']
@@ -40,6 +40,7 @@ def _spec(draw):
       'spread': draw(st.lists(st.integers(-64, 64), min_size=n_test, max_size=n_test)),
       'tnoise': draw(st.lists(st.integers(-64, 64), min_size=n_test, max_size=n_test)),
       'rhos': sorted(set(draw(st.lists(st.integers(0, 999), min_size=2, max_size=5)))),
+      'reuse': draw(st.booleans()),
   }
   return spec
 
@@ -97,10 +98,30 @@ def run(spec):
   # (c) metamorphic
   try:
     s = 2.0 ** spec['k']
-    _, I2 = lib_impact(x * s, y * s, par_kw)
+    reuse = spec.get('reuse', False)
+
+    def impact_of(xv, yv):
+      # 'reuse' flavour: the same diagnostics object is given the new series through its setters
+      if not reuse:
+        return lib_impact(xv, yv, par_kw)[1]
+      d.y = yv
+      d.x = xv
+      return d.required_impact
+    I2 = impact_of(x * s, y * s)
     if not util.close(I2, I * s, 1e-12):
       viol.append(('C05:unit-scaling', dict(det, k=spec['k'], got=float(I2), want=float(I * s))))
-    _, I3 = lib_impact(x + spec['sa'], y + spec['sb'], par_kw)
+    I3 = impact_of(x + spec['sa'], y + spec['sb'])
+    if reuse:
+      m = len(y) // 2 + 2
+      if 3 <= m < len(y):
+        I_m = impact_of(x[:m], y[:m])          # a series of another length in between
+        I_m_fresh = lib_impact(x[:m], y[:m], par_kw)[1]
+        if not util.close(I_m, I_m_fresh, 1e-13):
+          viol.append(('C05:object-reuse-changes-required-impact', dict(det, reused=float(I_m), fresh=float(I_m_fresh), m=m)))
+      I_back = impact_of(x, y)
+      if not util.close(I_back, I, 1e-13):
+        viol.append(('C05:object-reuse-changes-required-impact', dict(det, first=float(I), after_reuse=float(I_back))))
+      cls.append('reuse')
     if not util.close(I3, I, 1e-8):
       viol.append(('C05:level-shift', dict(det, got=float(I3), want=float(I))))
     rhos = [r / 1000.0 for r in spec['rhos']]
